@@ -42,6 +42,8 @@ class C01(Prop):
         s = rng.choice((0, 0, rng.randrange(0, N)))
         nmax = N - s
         n = rng.choice((nmax, nmax, rng.randint(1, nmax), rng.randint(1, nmax)))
+        if rng.random() < 0.04:
+            n = 0                       # an explicit empty range: nothing may be delivered (rejected up front)
         mode = rng.randrange(10)
         g = rng.randint(1, max(1, n + 2))
         if mode == 0:
